@@ -23,7 +23,8 @@ def patT (T : Table) : Nat → Nat → Bool
       | none => false
     | _ => false
 
-/-- argument types of the fragment: int, bin, tuples of such (closed, union-free). -/
+/-- argument types of the fragment: int, bin, tuples and unions of such (closed, cycle-free,
+first-order). -/
 def argT (T : Table) : Nat → Nat → Bool
   | 0, _ => false
   | n + 1, a =>
@@ -34,6 +35,7 @@ def argT (T : Table) : Nat → Nat → Bool
       match T.tuples[id]? with
       | some info => info.fields.all (fun f => argT T n f.2)
       | none => false
+    | some (.union ids) => ids.all (argT T n)
     | _ => false
 
 theorem patT_fo {T : Table} : ∀ (n p : Nat), patT T n p = true → foV T n p = true := by
@@ -75,6 +77,10 @@ theorem argT_fo {T : Table} : ∀ (n a : Nat), argT T n a = true → foV T n a =
       cases ty with
       | integer => rfl
       | binary => rfl
+      | union ids =>
+        simp only at h ⊢
+        rw [List.all_eq_true] at h ⊢
+        exact fun i hi => ih i (h i hi)
       | tuple id =>
         simp only at h ⊢
         cases htu : T.tuples[id]? with
@@ -134,6 +140,10 @@ theorem argT_transfer {T T' : Table} (hE : Ext T T') :
         cases ty with
         | integer => rfl
         | binary => rfl
+        | union ids =>
+          simp only at h ⊢
+          rw [List.all_eq_true] at h ⊢
+          exact fun i hi => ih i m (h i hi) hle'
         | tuple id =>
           simp only at h ⊢
           cases htu : T.tuples[id]? with
@@ -438,6 +448,61 @@ theorem allU_fields {rules : Rules} {cf f : Nat} (IH : UnifySoundAt rules cf f) 
     · simp only [ne_eq, hl, not_false_eq_true, if_true] at h
       simp at h
 
+/-- the variant loop of the "non-union parameter, union argument" arm under the EVERY-variant rule. -/
+theorem allU_variants {rules : Rules} {cf f : Nat} (IH : UnifySoundAt rules cf f) (p : Nat) :
+    ∀ (cvs : List Nat) (T : Table) (b : Bindings) (T' : Table) (b' : Bindings) (n m : Nat),
+      allU (fun T' b' cv => unifyWith rules cf f T' b' p cv) T b cvs = some (T', some b') →
+      patT T n p = true → (∀ cv ∈ cvs, argT T m cv = true) → BOk T b →
+      Ext T T' ∧ BOk T' b' ∧ BLe T T' b b' ∧
+        ∀ cv ∈ cvs, ∀ v, inh T [] cv v → InhP T' b' n p v
+  | [], T, b, T', b', n, m, h, _, _, hb => by
+    simp only [allU, Option.some.injEq, Prod.mk.injEq] at h
+    obtain ⟨rfl, rfl⟩ := h
+    exact ⟨Ext.refl _, hb, BLe.refl' (Ext.refl _) hb, fun z hz => by cases hz⟩
+  | cv :: rest, T, b, T', b', n, m, h, hp, hcv, hb => by
+    unfold allU at h
+    cases hu : unifyWith rules cf f T b p cv with
+    | none => rw [hu] at h; cases h
+    | some r =>
+      obtain ⟨T1, ob1⟩ := r
+      cases ob1 with
+      | none => rw [hu] at h; simp at h
+      | some b1 =>
+        rw [hu] at h; simp only at h
+        obtain ⟨hE1, hb1, hL1, hs1⟩ := IH T b p cv T1 b1 n m hu hp (hcv cv (List.mem_cons_self ..)) hb
+        have hp1 := patT_transfer hE1 n p n hp (Nat.le_refl _)
+        have hrest : ∀ c ∈ rest, argT T1 m c = true := fun c hc =>
+          argT_transfer hE1 m c m (hcv c (List.mem_cons_of_mem _ hc)) (Nat.le_refl _)
+        obtain ⟨hE2, hb2, hL2, hs2⟩ := allU_variants IH p rest T1 b1 T' b' n m h hp1 hrest hb1
+        refine ⟨hE1.trans hE2, hb2, hL1.trans hL2, ?_⟩
+        intro c hc v hv
+        rcases List.mem_cons.mp hc with rfl | hc'
+        · exact InhP_mono hE2 hL2 n p v n hp1 (hs1 v hv) (Nat.le_refl _)
+        · exact hs2 c hc' v (inh_ext hE1 ⟨m, argT_fo m c (hcv c (List.mem_cons_of_mem _ hc'))⟩ hv)
+
+/-- a value of a union type of the fragment is a value of one of its variants. -/
+theorem inh_union {T : Table} {a : Nat} {cvs : List Nat} {v : V} {m : Nat}
+    (hta : T.types[a]? = some (.union cvs)) (ha : ∀ cv ∈ cvs, argT T m cv = true) (h : inh T [] a v) :
+    ∃ cv ∈ cvs, inh T [] cv v := by
+  obtain ⟨f, hf⟩ := h
+  cases f with
+  | zero => simp [inhB] at hf
+  | succ f =>
+    unfold inhB at hf; rw [hta] at hf; simp only at hf
+    obtain ⟨cv, hcv, hv⟩ := List.any_eq_true.mp hf
+    exact ⟨cv, hcv, f, inhB_transfer (Ext.refl T) f m cv v _ _ f (argT_fo m cv (ha cv hcv)) hv (Nat.le_refl _)⟩
+
+/-- the "non-union parameter, union argument" arm, once reduced to the variant loop. -/
+theorem union_arg_case {rules : Rules} {cf f : Nat} (IH : UnifySoundAt rules cf f)
+    {T : Table} {b : Bindings} {p a : Nat} {cvs : List Nat} {T' : Table} {b' : Bindings} {n m : Nat}
+    (h : allU (fun T' b' cv => unifyWith rules cf f T' b' p cv) T b cvs = some (T', some b'))
+    (hp : patT T n p = true) (hta : T.types[a]? = some (.union cvs))
+    (hcv : ∀ cv ∈ cvs, argT T m cv = true) (hb : BOk T b) : UnifyPost T b p a T' b' n := by
+  obtain ⟨hE, hb', hL, hs⟩ := allU_variants IH p cvs T b T' b' n m h hp hcv hb
+  refine ⟨hE, hb', hL, fun v hv => ?_⟩
+  obtain ⟨cv, hcvm, hv'⟩ := inh_union hta hcv hv
+  exact hs cv hcvm v hv'
+
 /-- binding a fresh variable. -/
 theorem bind_fresh {T : Table} {b : Bindings} {x a n m p : Nat} (hb : BOk T b) (hbx : b.get x = none)
     (hty : T.types[p]? = some (.variable x)) (ha : argT T m a = true) :
@@ -473,9 +538,11 @@ theorem bind_widen {T T1 : Table} {b : Bindings} {x a n m p e w : Nat} (hb : BOk
   · intro v hv
     unfold InhP; rw [hE.1 p _ hty]; simp only; rw [get_insert_self]; exact hin v (Or.inr hv)
 
-/-- Soundness of `unifyWith` (any rule set: the fragment never reaches the arms the rules govern)
-on the fragment, for every fuel. -/
-theorem unify_sound_aux (rules : Rules) (cf : Nat) : ∀ f, UnifySoundAt rules cf f := by
+/-- Soundness of `unifyWith` on the fragment, for every fuel, under the EVERY-variant rule for union
+arguments (fix 8f4b36d; the cycle and merge switches are irrelevant: the fragment never reaches
+those arms). -/
+theorem unify_sound_aux (rules : Rules) (hr : rules.unionArg = .everyVariant) (cf : Nat) :
+    ∀ f, UnifySoundAt rules cf f := by
   intro f
   induction f with
   | zero => intro T b p a T' b' n m h; simp [unifyWith] at h
@@ -547,6 +614,12 @@ theorem unify_sound_aux (rules : Rules) (cf : Nat) : ∀ f, UnifySoundAt rules c
         unfold InhP; rw [htp]; exact inh_integer hta hv
       | binary => simp [unifyStep] at h
       | tuple _ => simp [unifyStep] at h
+      | union cvs =>
+        have key : unifyStep rules cf (unifyWith rules cf f) T b p a .integer (.union cvs) =
+            allU (fun T' b' cv => unifyWith rules cf f T' b' p cv) T b cvs := by
+          cases cvs <;> simp [unifyStep, hr, allU]
+        rw [key] at h
+        exact union_arg_case ih h hp0 hta (fun cv hcv => (List.all_eq_true.mp ha) cv hcv) hb
       | _ => simp at ha
     | binary =>
       cases ta with
@@ -557,11 +630,23 @@ theorem unify_sound_aux (rules : Rules) (cf : Nat) : ∀ f, UnifySoundAt rules c
         unfold InhP; rw [htp]; exact inh_binary hta hv
       | integer => simp [unifyStep] at h
       | tuple _ => simp [unifyStep] at h
+      | union cvs =>
+        have key : unifyStep rules cf (unifyWith rules cf f) T b p a .binary (.union cvs) =
+            allU (fun T' b' cv => unifyWith rules cf f T' b' p cv) T b cvs := by
+          cases cvs <;> simp [unifyStep, hr, allU]
+        rw [key] at h
+        exact union_arg_case ih h hp0 hta (fun cv hcv => (List.all_eq_true.mp ha) cv hcv) hb
       | _ => simp at ha
     | tuple i1 =>
       cases ta with
       | integer => simp [unifyStep] at h
       | binary => simp [unifyStep] at h
+      | union cvs =>
+        have key : unifyStep rules cf (unifyWith rules cf f) T b p a (.tuple i1) (.union cvs) =
+            allU (fun T' b' cv => unifyWith rules cf f T' b' p cv) T b cvs := by
+          cases cvs <;> simp [unifyStep, hr, allU]
+        rw [key] at h
+        exact union_arg_case ih h hp0 hta (fun cv hcv => (List.all_eq_true.mp ha) cv hcv) hb
       | tuple i2 =>
         simp only at hp ha
         cases ht1 : T.tuples[i1]? with
